@@ -212,26 +212,35 @@ def inFragmentCB (ordf : List World → List World) (dordf : List Var → List V
 def fragXStaticB (G : MG Name) (O C : Event) : Bool :=
   fragCStaticB G O C && !O.isEmpty && decide (C.length = 1)
 
-/-- dynamic part, run with the model's own functions: rule 2 applies to the condition `X = x` (line 4 recurses), the exchange
-turns EVERY outcome `Y` into `Y_x` (every outcome descends from `X` in the counterfactual graph), and the counterfactual graph
-of the exchanged outcomes keeps every `Y_x` (no `Y_x` is merged into `Y`) -/
+/-- every outcome descends from the condition: the exchange turns EVERY outcome `Y` into `Y_x`, and the counterfactual graph of
+the exchanged outcomes keeps every `Y_x` (no `Y_x` is merged into `Y`) -/
+def exchangeAllB (ordf : List World → List World) (G : MG Name) (cf : MG Var) (O : Event) (c : Var) (val : Iv) : Bool :=
+  (match exchangeOutcomes cf O c val with | .ok no' => decide (no' = exOut O c.name) | _ => false) &&
+  (match makeCounterfactualGraph ordf G (exOut O c.name) with
+   | .ok (_, some nev2) => (exOut O c.name).all (fun p => nev2.has p.1)
+   | _ => true)
+
+/-- NO outcome descends from the condition: the exchange leaves the outcomes as they are -/
+def exchangeNoneB (cf : MG Var) (O : Event) (c : Var) : Bool :=
+  O.all fun p => match cf.ancestorsInclusive [p.1] with | .ok anc => !elem' c anc | _ => false
+
+/-- dynamic part, run with the model's own functions: rule 2 applies to the condition `X = x` (line 4 recurses) and either every
+outcome descends from `X` in the counterfactual graph or none does (so that the recursive call is about ONE world) -/
 def exchangeB (ordf : List World → List World) (G : MG Name) (O C : Event) : Bool :=
   match C with
   | [(c, val)] =>
     (match makeCounterfactualGraph ordf G (O ++ C) with
      | .ok (cf, some _) =>
        (match firstExchangeable cf O.keys C.keys with
-        | .ok (some _) => (match exchangeOutcomes cf O c val with | .ok no' => decide (no' = exOut O c.name) | _ => false)
+        | .ok (some _) => exchangeAllB ordf G cf O c val || exchangeNoneB cf O c
         | _ => false)
-     | _ => true) &&
-    (match makeCounterfactualGraph ordf G (exOut O c.name) with
-     | .ok (_, some nev2) => (exOut O c.name).all (fun p => nev2.has p.1)
      | _ => true)
   | _ => false
 
 /-- **The exchange fragment of IDC\***: observational queries `P(y | x)` with ONE condition — factual variables of `G`, unstarred
 values, the outcome names different from `X` — on which rule 2 of the do-calculus applies to `X` according to
-`cf_rule_2_of_do_calculus_applies` and every outcome descends from `X`.  IDC* then answers with ID*'s estimand for `P(y_x)`.
+`cf_rule_2_of_do_calculus_applies` and either every outcome descends from `X` (IDC* then answers with ID*'s estimand for `P(y_x)`)
+or none does (IDC* answers with ID*'s estimand for `P(y)`).
 Decidable from the input (`inFragmentXB` runs the model's own functions).  Disjoint from `InFragmentC` (there rule 2 applies to
 no condition). -/
 def inFragmentXB (ordf : List World → List World) (G : MG Name) (O C : Event) : Bool :=
